@@ -672,8 +672,85 @@ pub fn run_c06(ctx: &Ctx) {
         }
         out::outcome(idx, &class, if sig.is_empty() { Verdict::Held } else { Verdict::Violated }, &sig, &d);
     }
+    // ---- calls that arrive while the scope is being left. The library's own mprotect on the restore path is slowed
+    // to 25 ms (delay injected in the interposed call), a worker hammers the target from the moment the scope exit
+    // starts; the budget (1) is already spent. Every call that still reaches the fake is rejected there - and a
+    // rejection that was complete well before the scope exit returned must show in the exit verdict.
+    let mut exit_race_trials = 0u64;
+    let mut exit_race_rejections = 0u64;
+    for &arm in &[Arm::Ret, Arm::WhenRet, Arm::UnitAssign] {
+        for rep in 0..3u64 {
+            let idx = special;
+            special += 1;
+            if !ctx.mine(idx) {
+                continue;
+            }
+            let class = format!("{:?}/N=1/calls-arriving-during-scope-exit", arm);
+            out::intent(idx, &class, &J::new().n("rep", rep).s("crash_sig", "exit-race"));
+            N_STATIC.store(1, Ordering::SeqCst);
+            let mut inj = ip::lib(InjectorPP::new);
+            ip::lib(|| install(&mut inj, arm, make(arm)));
+            let first = call(arm, true);
+            let epoch = Instant::now();
+            let go = Arc::new(AtomicBool::new(false));
+            let stop = Arc::new(AtomicBool::new(false));
+            let (go2, stop2) = (go.clone(), stop.clone());
+            let w = std::thread::spawn(move || {
+                while !go2.load(Ordering::SeqCst) {
+                    std::hint::spin_loop();
+                }
+                let mut rejected_done_at: Vec<u128> = Vec::new();
+                let mut admitted = 0u64;
+                let mut original = 0u64;
+                while !stop2.load(Ordering::Relaxed) {
+                    match call(arm, true) {
+                        Err(_) => {
+                            if rejected_done_at.len() < 4096 {
+                                rejected_done_at.push(epoch.elapsed().as_micros());
+                            }
+                        }
+                        Ok(v) if v == faked_value(arm) => admitted += 1,
+                        Ok(_) => original += 1,
+                    }
+                    let _ = panicobs::take();
+                }
+                (rejected_done_at, admitted, original)
+            });
+            ip::set_delay(ip::K_MPROTECT, 25_000_000);
+            go.store(true, Ordering::SeqCst);
+            let (dres, _) = panicobs::observe(|| ip::lib(|| drop(inj)));
+            let t_back = epoch.elapsed().as_micros();
+            ip::disarm_all();
+            std::thread::sleep(std::time::Duration::from_millis(1));
+            stop.store(true, Ordering::SeqCst);
+            let (rej, admitted, original) = w.join().unwrap_or((Vec::new(), 0, 0));
+            exit_race_trials += 1;
+            exit_race_rejections += rej.len() as u64;
+            let early = rej.iter().filter(|t| **t + 10_000 < t_back).count();
+            let mut sig = "";
+            if first != Ok(faked_value(arm)) {
+                sig = "call-within-the-budget-not-admitted";
+            } else if admitted > 0 {
+                sig = "admitted-more-than-min-k-N";
+            } else if early > 0 && dres.is_ok() {
+                sig = "calls-rejected-during-scope-exit-missing-from-the-exit-verdict";
+            } else if rej.is_empty() && dres.is_err() {
+                sig = "exit-panic-although-count-matches";
+            }
+            if call(arm, true) != Ok(orig_value(arm)) {
+                out::outcome(idx, &class, Verdict::Violated, "original-not-back", &J::new());
+                std::process::exit(75);
+            }
+            let d = J::new().n("calls_rejected_by_the_fake_during_scope_exit", rej.len()).n("of_which_complete_10ms_before_the_exit_returned", early).n("calls_that_reached_the_original", original).s("exit", &dres.err().unwrap_or_else(|| "no-panic".into()));
+            if sig.is_empty() && rej.is_empty() {
+                out::outcome(idx, &class, Verdict::Inconclusive, "no-call-arrived-during-the-scope-exit", &d);
+            } else {
+                out::outcome(idx, &class, if sig.is_empty() { Verdict::Held } else { Verdict::Violated }, sig, &d);
+            }
+        }
+    }
     let bo = by_outcome.iter().fold(J::new(), |j, (k, v)| j.n(k, *v));
-    out::summary(&J::new().n("bystander_trials", bystander_trials).n("calls_made_by_destructors_during_unwinding", unwinding_calls).n("scope_exits_stretched_with_the_next_lifetime_queued", stretched_exits).n("deallocations_delayed", crate::delayalloc::DELAYED_FREES.load(Ordering::SeqCst)).n("calls_racing_with_an_installation", race_hits).n("trials_total", trials.len()).n("calls_made", total_calls).n("multithread_trials_with_overlapping_call_windows", overlap_trials).o("by_outcome", bo));
+    out::summary(&J::new().n("scope_exits_with_calls_arriving", exit_race_trials).n("calls_rejected_during_a_scope_exit", exit_race_rejections).n("bystander_trials", bystander_trials).n("calls_made_by_destructors_during_unwinding", unwinding_calls).n("scope_exits_stretched_with_the_next_lifetime_queued", stretched_exits).n("deallocations_delayed", crate::delayalloc::DELAYED_FREES.load(Ordering::SeqCst)).n("calls_racing_with_an_installation", race_hits).n("trials_total", trials.len()).n("calls_made", total_calls).n("multithread_trials_with_overlapping_call_windows", overlap_trials).o("by_outcome", bo));
 }
 
 // ---------------------------------------------------------------------------------- C07
